@@ -98,7 +98,7 @@ class C03(Check):
             solvers[1]["shape"] = list(solvers[0]["shape"])
             solvers[1]["x_range"] = rng.choice([x for x in X_RANGES if x != solvers[0]["x_range"]])
         ops = []
-        for _ in range(rng.randint(3, 12)):
+        for _ in range(rng.randint(3, 12) if tier != "thorough" or rng.random() < 0.7 else rng.randint(20, 48)):
             s = rng.randrange(n_solvers)
             shape = solvers[s]["shape"]
             vec = dim == 3 and rng.random() < 0.3
